@@ -12,11 +12,11 @@ def ClientLimiter.bucketOf (cl : ClientLimiter) (k : Addr) : Bucket :=
   | none => Bucket.fresh
 
 @[simp] theorem ClientLimiter.allowN_opts (cl : ClientLimiter) (a : Addr) (t n : Nat) :
-    (cl.allowN a t n).2.opts = cl.opts := rfl
+    (cl.allowNAt a t n).2.opts = cl.opts := rfl
 @[simp] theorem ClientLimiter.allowN_limit (cl : ClientLimiter) (a : Addr) (t n : Nat) :
-    (cl.allowN a t n).2.limit = cl.limit := rfl
+    (cl.allowNAt a t n).2.limit = cl.limit := rfl
 @[simp] theorem ClientLimiter.allowN_burst (cl : ClientLimiter) (a : Addr) (t n : Nat) :
-    (cl.allowN a t n).2.burst = cl.burst := rfl
+    (cl.allowNAt a t n).2.burst = cl.burst := rfl
 @[simp] theorem ClientLimiter.gcWith_opts (rf : Bool) (cl : ClientLimiter) (now : Nat) (only : Option Addr) :
     (cl.gcWith rf now only).opts = cl.opts := rfl
 @[simp] theorem ClientLimiter.gcWith_limit (rf : Bool) (cl : ClientLimiter) (now : Nat) (only : Option Addr) :
@@ -25,23 +25,30 @@ def ClientLimiter.bucketOf (cl : ClientLimiter) (k : Addr) : Bucket :=
     (cl.gcWith rf now only).burst = cl.burst := rfl
 
 theorem ClientLimiter.allowN_fst (cl : ClientLimiter) (a : Addr) (t n : Nat) :
-    (cl.allowN a t n).1 = ((cl.bucketOf (mask cl.opts a)).allowN cl.limit cl.burst t n).1 := rfl
+    (cl.allowNAt a t n).1 = ((cl.bucketOf (mask cl.opts a)).allowN cl.limit cl.burst t n).1 := rfl
 
 theorem ClientLimiter.bucketOf_allowN_same (cl : ClientLimiter) (a : Addr) (t n : Nat) :
-    (cl.allowN a t n).2.bucketOf (mask cl.opts a)
+    (cl.allowNAt a t n).2.bucketOf (mask cl.opts a)
       = ((cl.bucketOf (mask cl.opts a)).allowN cl.limit cl.burst t n).2 := by
-  simp [ClientLimiter.allowN, ClientLimiter.bucketOf, Table.set]
+  simp [ClientLimiter.allowNAt, ClientLimiter.bucketOf, Table.set]
   rfl
 
 theorem ClientLimiter.bucketOf_allowN_other (cl : ClientLimiter) (a : Addr) (t n : Nat) (k : Addr)
-    (h : mask cl.opts a ≠ k) : (cl.allowN a t n).2.bucketOf k = cl.bucketOf k := by
+    (h : mask cl.opts a ≠ k) : (cl.allowNAt a t n).2.bucketOf k = cl.bucketOf k := by
   have h' : ¬ k = mask cl.opts a := fun e => h e.symm
-  simp [ClientLimiter.allowN, ClientLimiter.bucketOf, Table.set, h']
+  simp [ClientLimiter.allowNAt, ClientLimiter.bucketOf, Table.set, h']
 
 theorem ClientLimiter.m_allowN_other (cl : ClientLimiter) (a : Addr) (t n : Nat) (k : Addr)
-    (h : mask cl.opts a ≠ k) : (cl.allowN a t n).2.m k = cl.m k := by
+    (h : mask cl.opts a ≠ k) : (cl.allowNAt a t n).2.m k = cl.m k := by
   have h' : ¬ k = mask cl.opts a := fun e => h e.symm
-  simp [ClientLimiter.allowN, Table.set, h']
+  simp [ClientLimiter.allowNAt, Table.set, h']
+
+/-- (moved here from part 5) -/
+theorem ClientLimiter.m_allowN_same (cl : ClientLimiter) (a : Addr) (t n : Nat) :
+    (cl.allowNAt a t n).2.m (mask cl.opts a)
+      = some ⟨((cl.bucketOf (mask cl.opts a)).allowN cl.limit cl.burst t n).2, t⟩ := by
+  simp [ClientLimiter.allowNAt, ClientLimiter.bucketOf, Table.set]
+  rfl
 
 theorem ClientLimiter.bucketOf_new (o : Opts) (k : Addr) : (ClientLimiter.new o).bucketOf k = Bucket.fresh := rfl
 
@@ -115,7 +122,7 @@ theorem ClientLimiter.inv_new (o : Opts) (h : 0 < (ClientLimiter.new o).limit) (
 
 theorem ClientLimiter.bucket_inv_step (cl : ClientLimiter) (k : Addr) {τ : Nat} (e : Ev)
     (h : (cl.bucketOf k).Inv cl.limit τ) (ht : τ ≤ e.t) :
-    ((cl.allowN e.addr e.t e.n).2.bucketOf k).Inv cl.limit e.t := by
+    ((cl.allowNAt e.addr e.t e.n).2.bucketOf k).Inv cl.limit e.t := by
   by_cases hk : mask cl.opts e.addr = k
   · subst hk
     rw [ClientLimiter.bucketOf_allowN_same]
@@ -131,7 +138,7 @@ theorem ClientLimiter.bucket_inv_gc (rf : Bool) (cl : ClientLimiter) (k : Addr) 
   · rw [h1]; exact Bucket.inv_fresh _ hL _
 
 theorem ClientLimiter.inv_step (cl : ClientLimiter) {τ : Nat} (e : Ev) (h : cl.Inv τ) (ht : τ ≤ e.t) :
-    (cl.allowN e.addr e.t e.n).2.Inv e.t := fun k => cl.bucket_inv_step k e (h k) ht
+    (cl.allowNAt e.addr e.t e.n).2.Inv e.t := fun k => cl.bucket_inv_step k e (h k) ht
 
 theorem ClientLimiter.inv_gc (rf : Bool) (cl : ClientLimiter) {τ now : Nat} (only : Option Addr) (hL : 0 < cl.limit) (h : cl.Inv τ) (ht : τ ≤ now) :
     (cl.gcWith rf now only).Inv now := fun k => cl.bucket_inv_gc rf k only hL (h k) ht
@@ -152,10 +159,10 @@ theorem ClientLimiter.avail_gc_le (cl : ClientLimiter) (k : Addr) (now : Nat) (o
 theorem window_inside (k : Addr) (a b : Nat) :
     ∀ (os : List Op) (cl : ClientLimiter) (τ : Nat), 0 < cl.limit →
       (cl.bucketOf k).Inv cl.limit τ → sortedFrom τ os → a ≤ τ →
-      (τ ≤ b → ((admittedCost (inWindow cl.opts k a b) os (cl.runOpsWith true os) * nano : Nat) : Int)
+      (τ ≤ b → ((admittedCost (inWindow cl.opts k a b) os (cl.runOpsAtWith true os) * nano : Nat) : Int)
                 ≤ (cl.bucketOf k).avail cl.limit cl.burst τ + ((cl.limit * (b - τ) : Nat) : Int)
                   + ((cl.limit : Int) - 1))
-      ∧ (b < τ → admittedCost (inWindow cl.opts k a b) os (cl.runOpsWith true os) = 0) := by
+      ∧ (b < τ → admittedCost (inWindow cl.opts k a b) os (cl.runOpsAtWith true os) = 0) := by
   intro os
   induction os with
   | nil =>
@@ -174,7 +181,7 @@ theorem window_inside (k : Addr) (a b : Nat) :
       have hinv' := cl.bucket_inv_gc true k only hL hinv hte
       have IH := ih (cl.gcWith true now only) now (by simpa using hL) (by simpa using hinv') hs' (Nat.le_trans ha hte)
       simp only [ClientLimiter.gcWith_opts, ClientLimiter.gcWith_limit, ClientLimiter.gcWith_burst] at IH
-      simp only [ClientLimiter.runOpsWith, admittedCost]
+      simp only [ClientLimiter.runOpsAtWith, admittedCost]
       refine ⟨fun hτb => ?_, fun hbτ => IH.2 (by omega)⟩
       by_cases hnb : now ≤ b
       · have IH1 := IH.1 hnb
@@ -193,9 +200,9 @@ theorem window_inside (k : Addr) (a b : Nat) :
     | allow e =>
     simp only [Op.time] at hte hs'
     have hinv' := cl.bucket_inv_step k e hinv hte
-    have IH := ih (cl.allowN e.addr e.t e.n).2 e.t (by simpa using hL) (by simpa using hinv') hs' (Nat.le_trans ha hte)
+    have IH := ih (cl.allowNAt e.addr e.t e.n).2 e.t (by simpa using hL) (by simpa using hinv') hs' (Nat.le_trans ha hte)
     simp only [ClientLimiter.allowN_opts, ClientLimiter.allowN_limit, ClientLimiter.allowN_burst] at IH
-    simp only [ClientLimiter.runOpsWith, admittedCost]
+    simp only [ClientLimiter.runOpsAtWith, admittedCost]
     constructor
     · intro hτb
       by_cases htb : e.t ≤ b
@@ -206,7 +213,7 @@ theorem window_inside (k : Addr) (a b : Nat) :
         by_cases hk : mask cl.opts e.addr = k
         · subst hk
           rw [ClientLimiter.bucketOf_allowN_same] at IH1
-          cases hd : (cl.allowN e.addr e.t e.n).1 with
+          cases hd : (cl.allowNAt e.addr e.t e.n).1 with
           | true =>
             rw [ClientLimiter.allowN_fst] at hd
             obtain ⟨_, _, h3⟩ := Bucket.allowN_true hd
@@ -250,7 +257,7 @@ theorem window_inside (k : Addr) (a b : Nat) :
 theorem window_outside (k : Addr) (a b : Nat) (hab : a ≤ b) :
     ∀ (os : List Op) (cl : ClientLimiter) (τ : Nat), 0 < cl.limit →
       (cl.bucketOf k).Inv cl.limit τ → sortedFrom τ os → τ ≤ a →
-      ((admittedCost (inWindow cl.opts k a b) os (cl.runOpsWith true os) * nano : Nat) : Int)
+      ((admittedCost (inWindow cl.opts k a b) os (cl.runOpsAtWith true os) * nano : Nat) : Int)
         ≤ ((cl.burst * nano : Nat) : Int) + ((cl.limit * (b - a) : Nat) : Int) + ((cl.limit : Int) - 1) := by
   intro os
   induction os with
@@ -274,14 +281,14 @@ theorem window_outside (k : Addr) (a b : Nat) (hab : a ≤ b) :
         have hinv' := cl.bucket_inv_gc true k only hL hinv hs1
         have IH := ih (cl.gcWith true now only) now (by simpa using hL) (by simpa using hinv') hs2 (by omega)
         simpa only [ClientLimiter.gcWith_opts, ClientLimiter.gcWith_limit, ClientLimiter.gcWith_burst,
-          ClientLimiter.runOpsWith, admittedCost] using IH
+          ClientLimiter.runOpsAtWith, admittedCost] using IH
       | allow e =>
         simp only [Op.time] at hea hs1 hs2
         have hinv' := cl.bucket_inv_step k e hinv hs1
-        have IH := ih (cl.allowN e.addr e.t e.n).2 e.t (by simpa using hL) (by simpa using hinv') hs2 (by omega)
+        have IH := ih (cl.allowNAt e.addr e.t e.n).2 e.t (by simpa using hL) (by simpa using hinv') hs2 (by omega)
         simp only [ClientLimiter.allowN_opts, ClientLimiter.allowN_limit, ClientLimiter.allowN_burst] at IH
         have hw : inWindow cl.opts k a b e = false := by simp [inWindow]; intro _ _; omega
-        simp only [ClientLimiter.runOpsWith, admittedCost, hw, Bool.false_and, Bool.false_eq_true, if_false, Nat.zero_add]
+        simp only [ClientLimiter.runOpsAtWith, admittedCost, hw, Bool.false_and, Bool.false_eq_true, if_false, Nat.zero_add]
         exact IH
 
 /-! ### isolation -/
@@ -309,7 +316,7 @@ theorem ClientLimiter.m_gcWith (rf : Bool) (c1 c2 : ClientLimiter) (now : Nat) (
     whatever else is in their tables and whatever other keys' arrivals are interleaved. -/
 theorem isolation_gen (rf : Bool) (k : Addr) :
     ∀ (os : List Op) (c1 c2 : ClientLimiter), c1.opts = c2.opts → c1.m k = c2.m k →
-      decisionsFor c1.opts k os (c1.runOpsWith rf os) = c2.runOpsWith rf (onlyKey c1.opts k os) := by
+      decisionsFor c1.opts k os (c1.runOpsAtWith rf os) = c2.runOpsAtWith rf (onlyKey c1.opts k os) := by
   intro os
   induction os with
   | nil => intro c1 c2 _ _; rfl
@@ -320,24 +327,24 @@ theorem isolation_gen (rf : Bool) (k : Addr) :
     have hb : c1.bucketOf k = c2.bucketOf k := by simp [ClientLimiter.bucketOf, hm]
     cases o with
     | gc now only =>
-      simp only [ClientLimiter.runOpsWith, decisionsFor, onlyKey]
+      simp only [ClientLimiter.runOpsAtWith, decisionsFor, onlyKey]
       have IH := ih (c1.gcWith rf now only) (c2.gcWith rf now only) (by simpa using ho) (ClientLimiter.m_gcWith rf c1 c2 now only k ho hm)
       simpa using IH
     | allow e =>
     by_cases hk : mask c1.opts e.addr = k
     · have hk2 : mask c2.opts e.addr = k := ho ▸ hk
-      simp only [ClientLimiter.runOpsWith, decisionsFor, onlyKey, hk, if_true]
-      have hfst : (c1.allowN e.addr e.t e.n).1 = (c2.allowN e.addr e.t e.n).1 := by
+      simp only [ClientLimiter.runOpsAtWith, decisionsFor, onlyKey, hk, if_true]
+      have hfst : (c1.allowNAt e.addr e.t e.n).1 = (c2.allowNAt e.addr e.t e.n).1 := by
         rw [ClientLimiter.allowN_fst, ClientLimiter.allowN_fst, hk, hk2, hb, hl, hbu]
-      have hsnd : (c1.allowN e.addr e.t e.n).2.m k = (c2.allowN e.addr e.t e.n).2.m k := by
-        simp only [ClientLimiter.allowN, Table.set, hk, hk2, if_true, hm, hl, hbu]
-      have IH := ih (c1.allowN e.addr e.t e.n).2 (c2.allowN e.addr e.t e.n).2 (by simpa using ho) hsnd
+      have hsnd : (c1.allowNAt e.addr e.t e.n).2.m k = (c2.allowNAt e.addr e.t e.n).2.m k := by
+        simp only [ClientLimiter.allowNAt, Table.set, hk, hk2, if_true, hm, hl, hbu]
+      have IH := ih (c1.allowNAt e.addr e.t e.n).2 (c2.allowNAt e.addr e.t e.n).2 (by simpa using ho) hsnd
       simp only [ClientLimiter.allowN_opts] at IH
       rw [hfst, IH]
-    · simp only [ClientLimiter.runOpsWith, decisionsFor, onlyKey, hk, if_false]
-      have hsnd : (c1.allowN e.addr e.t e.n).2.m k = c2.m k := by
+    · simp only [ClientLimiter.runOpsAtWith, decisionsFor, onlyKey, hk, if_false]
+      have hsnd : (c1.allowNAt e.addr e.t e.n).2.m k = c2.m k := by
         rw [ClientLimiter.m_allowN_other _ _ _ _ _ hk, hm]
-      have IH := ih (c1.allowN e.addr e.t e.n).2 c2 (by simpa using ho) hsnd
+      have IH := ih (c1.allowNAt e.addr e.t e.n).2 c2 (by simpa using ho) hsnd
       simp only [ClientLimiter.allowN_opts] at IH
       exact IH
 
